@@ -143,9 +143,19 @@ func c05World(t *testing.T, p c05Params) rt.Result {
 		ps := hz.StdPeer("10.0.1.1")
 		ps.Hold = []int{90, 0, 3}[r.IntN(3)]
 		ps.Passive = p.Dir == "in"
-		ps.Cfg.OnUpdate = func(_ *hz.Session, _ int, body []byte) *corebgp.Notification {
+		// half of the plugins answer from inside their callbacks, as a route reflector would
+		echo := r.IntN(2) == 0
+		ps.Cfg.OnEst = func(s *hz.Session) {
+			if echo {
+				s.Writer.WriteUpdate([]byte{0, 0, 0, 0})
+			}
+		}
+		ps.Cfg.OnUpdate = func(s *hz.Session, _ int, body []byte) *corebgp.Notification {
 			// the plugin runs the exported decoder on whatever arrives, as a real one would
 			decodeLikeAPlugin(body)
+			if echo {
+				s.Writer.WriteUpdate(body[:min(len(body), 64)])
+			}
 			return nil
 		}
 		var s *sess
@@ -244,7 +254,7 @@ func decodeLikeAPlugin(body []byte) {
 
 func c05API(t *testing.T, seed uint64) rt.Result {
 	ops := 0
-	out := hz.Run(t, hz.Opts{Seed: seed, HookMode: hz.HookYield, NoServe: true, Limit: time.Hour}, func(w *hz.World) {
+	out := hz.Run(t, hz.Opts{Seed: seed, HookMode: hz.HookYield, NoServe: true, Limit: time.Hour, ExtraListeners: int(seed % 3)}, func(w *hz.World) {
 		r := rand.New(rand.NewPCG(seed, 6))
 		srv := w.Srv
 		var wg sync.WaitGroup
@@ -317,6 +327,9 @@ func c05API(t *testing.T, seed uint64) rt.Result {
 						ls = nil
 					default:
 						ls = []net.Listener{w.Lis}
+						for _, l := range w.Extra {
+							ls = append(ls, l)
+						}
 					}
 					wg.Add(1)
 					go func() {
@@ -325,6 +338,9 @@ func c05API(t *testing.T, seed uint64) rt.Result {
 					}()
 				} else if rr.IntN(4) == 0 && w.Lis != nil {
 					w.Lis.Fail(errors.New("injected accept error")) // listener failure ends Serve
+					for _, l := range w.Extra {                     // (all listeners at the same instant)
+						l.Fail(errors.New("injected accept error"))
+					}
 				}
 			case 11:
 				if rr.IntN(6) == 0 {
@@ -361,6 +377,9 @@ func c05API(t *testing.T, seed uint64) rt.Result {
 			<-serveRet
 		}
 		w.Lis.Close() // connections never accepted because Serve was not running
+		for _, l := range w.Extra {
+			l.Close()
+		}
 
 	})
 	// finish() would call w.Close again and check Serve bookkeeping that this
